@@ -7,6 +7,10 @@ REPO="${VERIF_REPO:-/repo}"
 export CARGO_NET_OFFLINE=true
 T="${VERIF_TARGET:-$V/target}"
 mkdir -p "$T"
+# cargo does not re-link target/release/copia when a DIFFERENT source path that it already built
+# is built again in the same target dir: keep one target sub-directory per source path.
+SFX=""
+if [ "$REPO" != "/repo" ]; then SFX="-$(printf '%s' "$REPO" | md5sum | cut -c1-8)"; fi
 what=("$@"); [ ${#what[@]} -eq 0 ] && what=(shim cli vh)
 # one build at a time per target dir
 exec 9>"$T/.build.lock"; flock 9
@@ -20,20 +24,20 @@ shim)
     mv "$T/libfsmon_alloc.so.tmp" "$T/libfsmon_alloc.so"
   fi ;;
 cli)
-  (cd "$REPO" && CARGO_TARGET_DIR="$T/cli" cargo build --release --features cli --offline -q 2>&1 | grep -v '^warning' | tail -20 >&2 || true)
-  test -x "$T/cli/release/copia" ;;
+  (cd "$REPO" && CARGO_TARGET_DIR="$T/cli$SFX" cargo build --release --features cli --offline -q 2> "$T/.cli-build.log") || { grep -E "^error" -A12 "$T/.cli-build.log" | head -60 >&2; echo "build.sh: copia CLI does not compile" >&2; exit 1; }
+  test -x "$T/cli$SFX/release/copia" ;;
 cli-dev)
-  (cd "$REPO" && CARGO_TARGET_DIR="$T/cli" cargo build --features cli --offline -q 2>&1 | grep -v '^warning' | tail -20 >&2 || true)
-  test -x "$T/cli/debug/copia" ;;
+  (cd "$REPO" && CARGO_TARGET_DIR="$T/cli$SFX" cargo build --features cli --offline -q 2> "$T/.clidev-build.log") || { grep -E "^error" -A12 "$T/.clidev-build.log" | head -60 >&2; echo "build.sh: copia CLI (dev) does not compile" >&2; exit 1; }
+  test -x "$T/cli$SFX/debug/copia" ;;
 vh|vh-debug)
-  H="$T/harness-src"
+  H="$T/harness-src$SFX"
   mkdir -p "$H"
   rsync -a --delete --exclude Cargo.toml --exclude Cargo.lock "$V/harness/" "$H/"
   sed "s#@REPO@#$REPO#g" "$V/harness/Cargo.toml.in" > "$H/Cargo.toml.new"
   cmp -s "$H/Cargo.toml.new" "$H/Cargo.toml" 2>/dev/null || mv "$H/Cargo.toml.new" "$H/Cargo.toml"
   [ -f "$H/Cargo.lock" ] || cp "$REPO/Cargo.lock" "$H/Cargo.lock"
   prof=release; [ "$w" = vh-debug ] && prof=verif-debug
-  (cd "$H" && VERIF_REPO="$REPO" CARGO_TARGET_DIR="$T/vh" cargo build --profile $prof --offline -q 2>&1 | grep -E "^error" -A12 | head -80 >&2 || true)
-  test -x "$T/vh/$prof/vh" ;;
+  (cd "$H" && VERIF_REPO="$REPO" CARGO_TARGET_DIR="$T/vh$SFX" cargo build --profile $prof --offline -q 2> "$T/.vh-build.log") || { grep -E "^error" -A12 "$T/.vh-build.log" | head -80 >&2; echo "build.sh: harness does not compile against $REPO" >&2; exit 1; }
+  test -x "$T/vh$SFX/$prof/vh" ;;
 esac
 done
